@@ -226,13 +226,13 @@ def check(ctx):
             par, workers = 2, 4
         else:
             mc_jobs = [
-                ('L2-ops3', mk_cfg([2], s0s=[0, 1], tabs=['gen'], maxops=3, **allcfg), 5000),
-                ('L2-z2-ops3', mk_cfg([2], [True, False], ['mps', 'mpo'], [False], tabs=['z2'], maxops=3), 2000),
-                ('L3-ops2', mk_cfg([3], s0s=[0, 1, 2], tabs=['gen', 'z2'], maxops=2, **allcfg), 3000),
-                ('L3-finite-ops3', mk_cfg([3], [True], ['mps', 'mpo'], [True, False], tabs=['gen'], maxops=3), 3000),
-                ('L3-infinite-mpo-ops3', mk_cfg([3], [False], ['mpo'], [False], s0s=[1], tabs=['gen'], maxops=3), 2500),
-                ('L4-ops2', mk_cfg([4], s0s=[1], tabs=['gen', 'z2'], maxops=2, **allcfg), 2000),
-                ('L2-finite-ops4', mk_cfg([2], [True], ['mpo'], [False], maxops=4), 2000),
+                ('L2-ops3', mk_cfg([2], s0s=[1], tabs=['gen'], maxops=3, **allcfg), 3500),
+                ('L2-z2-ops3', mk_cfg([2], [True, False], ['mps', 'mpo'], [False], tabs=['z2'], maxops=3), 1500),
+                ('L3-ops2', mk_cfg([3], s0s=[0, 1, 2], tabs=['gen', 'z2'], maxops=2, **allcfg), 2000),
+                ('L3-finite-ops3', mk_cfg([3], [True], ['mps', 'mpo'], [True, False], tabs=['gen'], maxops=3), 2000),
+                ('L3-infinite-mpo-ops3', mk_cfg([3], [False], ['mpo'], [False], s0s=[1], tabs=['gen'], maxops=3), 2000),
+                ('L4-ops2', mk_cfg([4], s0s=[1], tabs=['gen'], maxops=2, **allcfg), 1500),
+                ('L2-finite-ops4', mk_cfg([2], [True], ['mpo'], [False], maxops=4), 1500),
             ]
             sims = [('sim-L23', mk_cfg([2, 3], s0s=[0, 1, 2], tabs=['gen', 'z2'], maxops=14, **allcfg), 500, 15),
                     ('sim-L4', mk_cfg([4], s0s=[0, 1], tabs=['gen', 'z2'], maxops=12, **allcfg), 150, 13)]
